@@ -11,9 +11,11 @@ oracle:         spec-level monitors on the observable events of the real run (vl
                 dsh.c on REAL threads with REAL signals, a gated transport and a settable clock
                 (harness/sigthread_harness.c, vlib/sigthread.py: _mask_signals, the sigwait set, raise(SIGSTOP), errx,
                 pthread_cancel/join decided by behaviour, no wall-clock race; the same scenarios with SIGINT/SIGTSTP
-                inherited ignored / blocked / both, batch and interactive); the real execcmd.c/pipecmd.c on real children:
+                inherited ignored / blocked / both, batch and interactive; and with the clock at 0, 1, 2, 2^31-2..2^31+1,
+                2^32-2..2^32+1, 2^33: the INTR_TIME boundary straddling 2^31 and 2^32); the real execcmd.c/pipecmd.c on real children:
                 the forwarded signal must ARRIVE at the command (observed in the command) wherever its just-forked child is
-                between fork() and exec - before/after the dup2()s, inside closeall(), before/after setsid(), before execvp()
+                between fork() and exec - before/after the dup2()s, inside closeall(), before the child lifts the inherited signal
+                mask, before/after setsid(), before execvp()
 generators:     vlib/sigphase.py (situations reached by steering the scheduler: a host in each phase, mutex holders, the
                 INTR_TIME boundary, the shutdown tail; every pair of positions; interrupts during time-outs),
                 vlib/sigrun.py (corpus, DFS, every position, random)
@@ -40,9 +42,13 @@ MANIFEST = dict(
          "canceled host is connected afterwards, never a deadlock).  Deterministic in every run: a host in each of the six "
          "phases at once with the watchdog or a worker holding either mutex, 0..3 s on the clock between ^C and a second "
          "^C / ^Z (1 s = INTR_TIME exactly), signals around every step of the shutdown tail, every pair of positions on "
-         "two tiny configurations, a signal at every position while the watchdog times hosts out, 13 scenarios on "
+         "two tiny configurations, a signal at every position while the watchdog times hosts out, 15 scenarios (two with the clock set BACK between the signals) on "
          "real threads with real signals (gated transport, settable clock) plus 15 of them again with SIGINT/SIGTSTP "
-         "inherited ignored, blocked or both, and the module's signal function called while the just-forked child of the "
+         "inherited ignored, blocked or both, 52 of them again with pdsh started at extreme values of the clock (time(NULL) = "
+         "0, 1, 2, 2^31-2 .. 2^31+1, 2^32-2 .. 2^32+1, 2^33; first/second interrupt one and two seconds apart straddling 2^31 "
+         "and 2^32; a first ^C and a lone ^Z compare the whole clock with last_intr = 0: the decision must depend on the "
+         "difference of the two instants only, Props/C20.lean decision_depends_on_difference_only / "
+         "c_subtraction_wide_enough), and the module's signal function called while the just-forked child of the "
          "command is stopped before each of its libc calls between fork() and exec (the signal must arrive at the command).  "
          "dsh()'s _mask_signals(SIG_BLOCK)/(SIG_UNBLOCK) are steps of the accepted traces (wrapper Dsh/SignalsMask.lean: "
          "the dispatcher acts only in between).",
